@@ -320,7 +320,7 @@ def msgs_session(i, msgs, wd, rot, schedule=None, hold=None, big=False):
 
 
 def tlc_schedules(msgs_name, wd, variant="snapshot-copy"):
-    cfg = ('SPECIFICATION Spec\nCONSTANTS\n  Msgs <- %s\n  NFiles = 2\n  Variant = "%s"\nINVARIANT EmitSchedule\n' % (msgs_name, variant))
+    cfg = ('SPECIFICATION Spec\nCONSTANTS\n  Msgs <- %s\n  NFiles = 2\n  Variant = "%s"\n  SplitEnd = FALSE\nINVARIANT EmitSchedule\n' % (msgs_name, variant))
     r = common.run_tlc("MCServerImpl.tla", cfg, os.path.join(wd, "sched-" + msgs_name), workers=8, timeout=1800)
     common.tlc_must(r, "ServerImpl schedules " + msgs_name)
     return r
@@ -330,14 +330,15 @@ def model_check_impl(wd):
     """the design-level result: deadlock freedom, liveness under fairness, C11's ordering invariants"""
     out = {}
     for name in ("MsgsNRNR", "MsgsNNN", "MsgsNRRN"):
-        cfg = ('SPECIFICATION Spec\nCONSTANTS\n  Msgs <- %s\n  NFiles = 2\n  Variant = "snapshot-copy"\nVIEW view\n'
-               'INVARIANT VersionsMonotone\nINVARIANT ConvergesAtQuiescence\nINVARIANT SnapshotsAreCurrent\nINVARIANT NoLockInversion\n'
-               'PROPERTY EveryRequestAnswered\n' % name)
-        r = common.run_tlc("MCServerImpl.tla", cfg, os.path.join(wd, "mc-" + name), workers=4, timeout=900, coverage=True)
-        common.tlc_must(r, "ServerImpl model check " + name)
-        out[name] = {"distinct": r.distinct, "generated": r.generated}
+        for split in ("FALSE", "TRUE"):
+            cfg = ('SPECIFICATION Spec\nCONSTANTS\n  Msgs <- %s\n  NFiles = 2\n  Variant = "snapshot-copy"\n  SplitEnd = %s\nVIEW view\n'
+                   'INVARIANT VersionsMonotone\nINVARIANT ConvergesAtQuiescence\nINVARIANT SnapshotsAreCurrent\nINVARIANT NoLockInversion\n'
+                   'PROPERTY EveryRequestAnswered\n' % (name, split))
+            r = common.run_tlc("MCServerImpl.tla", cfg, os.path.join(wd, "mc-%s-%s" % (name, split)), workers=4, timeout=900, coverage=True)
+            common.tlc_must(r, "ServerImpl model check %s SplitEnd=%s" % (name, split))
+            out[name + ("/split-end" if split == "TRUE" else "")] = {"distinct": r.distinct, "generated": r.generated}
     # witness: the pre-fix variant deadlocks in the model
-    cfg = 'SPECIFICATION Spec\nCONSTANTS\n  Msgs <- MsgsNRNR\n  NFiles = 2\n  Variant = "shared-lock"\nVIEW view\n'
+    cfg = 'SPECIFICATION Spec\nCONSTANTS\n  Msgs <- MsgsNRNR\n  NFiles = 2\n  Variant = "shared-lock"\n  SplitEnd = FALSE\nVIEW view\n'
     r = common.run_tlc("MCServerImpl.tla", cfg, os.path.join(wd, "mc-shared"), workers=4, timeout=900)
     if "Deadlock reached" not in r.out:
         raise ToolError("ServerImpl(shared-lock) should deadlock in the model: the model lost its ability to express the defect")
@@ -420,6 +421,12 @@ def check_c08(tier, seed):
         ev.append({"ev": "End", "run": i})
         traces.append(ev)
     verdicts, tstates = validate(traces, wd, "c08")
+    # MODEL-DRIFT: every hook log (free-running or controlled) must be a behaviour of ServerImpl.tla
+    hverd, hstates = validate_hooks({i: rec["hooks"] for i, rec in enumerate(recs) if rec.get("hooks")}, wd, "c08")
+    tstates += hstates
+    hook_rejected = {i: x for i, x in hverd.items() if x[0] != "accepted"}
+    for i, x in sorted(hook_rejected.items())[:5]:
+        log("MODEL-DRIFT: hook log of run %d (%s) is not a behaviour of ServerImpl.tla: %s" % (i, meta[i]["family"], x[1]))
     drift = 0
     reached = 0
     for i, rec in enumerate(recs):
@@ -445,13 +452,17 @@ def check_c08(tier, seed):
     cov = {"states": states + tstates, "transitions": trans + tstates, "traces_validated_against_impl": len(items),
            "samples": [meta[0], meta[nm + 3], meta[-1]], "exhaustive": False,
            "model_check": mc, "schedules_enumerated_by_tlc": nsched, "model_schedules_replayed": nm,
-           "model_schedules_diverged(MODEL-DRIFT)": drift, "hold_runs": sum(1 for m in meta if m["family"] == "hold"),
+           "model_schedules_diverged(MODEL-DRIFT)": drift, "hook_logs_validated_against_ServerImpl": len(hverd),
+           "hook_logs_rejected(MODEL-DRIFT)": len(hook_rejected),
+           "hook_log_rejections": sorted({re.sub(r" @line \d+", "", x[1]) for x in hook_rejected.values()})[:8], "hold_runs": sum(1 for m in meta if m["family"] == "hold"),
            "hold_points_reached": reached, "burst_runs": sum(1 for m in meta if m["family"] == "burst"), "binary_stdio_bursts": nburst,
            "explanation": "ServerImpl.tla model-checked (deadlock, liveness under weak fairness, ordering invariants); its maximal behaviours are "
                           "enumerated and a seeded subset replayed on the real server under the hook-controlled scheduler; plus the "
-                          "adversarial hold family and uncontrolled bursts; every JSON-RPC trace validated by TraceServer.tla (Answered at Quiet)"}
-    if drift > nm // 2:
-        log("MODEL-DRIFT: %d of %d model schedules diverged on the real server; the model-checking claim is withdrawn for this run" % (drift, nm))
+                          "adversarial hold family and uncontrolled bursts; every JSON-RPC trace validated by TraceServer.tla (Answered at Quiet); "
+                          "every hook log validated against ServerImpl.tla by TraceServerImpl.tla (the code follows the model's protocol)"}
+    if drift > nm // 2 or hook_rejected:
+        log("MODEL-DRIFT: %d of %d model schedules diverged on the real server, %d of %d hook logs are not behaviours of the model; "
+            "the model-checking claim is withdrawn for this run" % (drift, nm, len(hook_rejected), len(hverd)))
         level = "exploration"
         cov.update({"evaluations": len(items), "distinct_nontrivial": len(items), "rule": "server runs; see explanation"})
     return v.finish(level, cov, ["schedules are explored at hook granularity; synchronisation inside salsa/tokio is modelled, not explored",
@@ -550,3 +561,47 @@ def stdio_burst(binary, d, nreq, rot, nnotif=1, timeout=25.0):
     alive = p.poll() is None
     p.kill()
     return answered, alive
+
+
+# ---------------------------------------------------------------------------------------------------------------------
+# MODEL-DRIFT: the hook log of every run must be a behaviour of ServerImpl.tla (spec/TraceServerImpl.tla)
+
+def hook_trace(run, hooks):
+    """hook log [[who, point, tid]...] -> events; the message sequence is read off the main loop's own steps"""
+    msgs, inside = [], False
+    for w, p, t in hooks:
+        if w == "main" and p == "notif_enter":
+            inside = True
+            msgs.append("N")
+        elif w == "main" and p == "notif_exit":
+            inside = False
+        elif w == "main" and p == "spawn" and not inside:
+            msgs.append("R")
+    ev = [{"ev": "Reset", "msgs": msgs}]
+    for w, p, t in hooks:
+        if w == "main":
+            ev.append({"ev": "H", "w": "main", "p": p, "t": t})
+        else:
+            ev.append({"ev": "H", "w": "task", "p": p, "t": int(w[4:])})
+    ev.append({"ev": "End", "run": run})
+    return ev
+
+
+def validate_hooks(logs, wd, tag):
+    """logs: {run: hooks}; returns ({run: (verdict, why, monotone)}, states)"""
+    verdicts, states = {}, 0
+    runs = sorted(logs)
+    B = 150
+    for b in range(0, len(runs), B):
+        lines = []
+        for r in runs[b:b + B]:
+            lines.extend(hook_trace(r, logs[r]))
+        path = os.path.join(wd, "hooks-%s-%d.ndjson" % (tag, b))
+        common.write_ndjson(path, lines)
+        res = common.run_tlc("TraceServerImpl.tla", os.path.join(common.SPEC, "TraceServerImpl.cfg"), os.path.join(wd, "tlc-hooks-%s-%d" % (tag, b)),
+                             env={"TRACE": path}, workers=1, timeout=1800, dfs=True)
+        common.tlc_must(res, "TraceServerImpl")
+        states += res.distinct
+        for x in res.records:
+            verdicts[x["run"]] = (x["verdict"], x["why"], x["monotone"], x["leftover"])
+    return verdicts, states
